@@ -319,7 +319,13 @@ class Documentable:
         parts = name.split('.')
         obj: Documentable = self
         for i, p in enumerate(parts):
-            full_name = obj._localNameToFullName(p)
+            if i != 0 and isinstance(obj, Class) and p not in obj.contents \
+                    and p not in obj._localNameToFullName_map:
+                # An attribute of a class is looked up in the class and in its bases, 
+                # the scopes enclosing the class statement play no role.
+                full_name = p
+            else:
+                full_name = obj._localNameToFullName(p)
             if full_name == p and i != 0:
                 # The local name was not found.
                 # If we're looking at a class, we try our luck with the inherited members
